@@ -1,5 +1,6 @@
 import Pko.Drv.PhaseCommon
 import Pko.Model.ObjectSet
+import Pko.Model.Remote
 /-! Shared part of the controller-level ("sys") drivers: scenario decoding, running the
 ObjectSet controller model over a schedule, canonical printing — the format of
 `harness/verifsys/sys.go`. -/
@@ -69,7 +70,7 @@ def initSys (s : Scn) : Sys :=
     { kind := setKindOf s, ns := nsOf s, name := js.name, uid := s!"uid-{i+1}", gen := 1, rv := i + 1,
       deleting := false, finCached := js.finCached, finOrphan := false, pkgLabel := js.pkgLabel,
       lifecycle := toLifecycle js.lifecycle, phases := (js.phases.getD []).map toPhase,
-      previous := js.previous.getD [], revision := js.revision, conds := [], controllerOf := [] }
+      previous := js.previous.getD [], revision := js.revision, conds := [], controllerOf := [], remotePhases := [] }
   let store0 : Store := { objs := fun _ => none, nextUID := n + 1, nextRV := n + 1 }
   let store := (s.store.getD []).foldl (fun (st : Store) (o : JSObj) =>
     let k : Key := ⟨o.kind, o.ns, o.name⟩
@@ -97,13 +98,12 @@ def toSetEnv (e : JSetEnv) : Nat × SetEnvOp :=
     | "lifecycle" => .lifecycle e.set (toLifecycle e.value)
     | _ => .touch e.set)
 
-/-- no delegated phases in this driver: a phase with a class is treated as an error (the
-generator of the local-phase streams never produces one). -/
-def noRemotes : Remotes :=
-  { recon := fun _ _ w => (w, .error .other), tear := fun _ _ w => (w, .err) }
+/-- flavour of the same-cluster ObjectSetPhase controller serving the scenario's phases. -/
+def phaseCfgOf (s : Scn) : Cfg :=
+  { st := .native, flavour := if s.cluster then ⟨false, true, true⟩ else ⟨true, true, true⟩, scope := scopeOf, force := false }
 
 def condStr (c : Cond) : String :=
-  s!"{c.type}={c.status}/{c.reason}/{c.obsGen}" ++ (if c.type = "Available" && c.reason = "ProbeFailure" then "/" ++ c.msg else "")
+  s!"{c.type}={c.status}/{c.reason}/{c.obsGen}" ++ (if c.type = "Available" && c.reason = "ProbeFailure" && c.msg ≠ "" then "/" ++ c.msg else "")
 def condsStr (cs : List Cond) : String := ",".intercalate (sortStrings (cs.map condStr))
 def crefStr (c : CRef) : String := s!"{c.kind}/{c.ns}/{c.name}"
 def crefsStr (cs : List CRef) : String := ",".intercalate (cs.map crefStr)
@@ -112,6 +112,16 @@ def resOr (r : Option ApiErr) : String := match r with | none => "ok" | some e =
 def setEventStr : SetEvent → String
   | .finalizerPatch n add r => s!"F {n} {if add then "+" else "-"} {resOr r}"
   | .statusUpdate n r rev conds co => s!"S {n} {resOr r} rev={rev} conds=[{condsStr conds}] co=[{crefsStr co}]"
+
+def phaseEventStr (kind : String) : PhaseEvent → String
+  | .create n r => s!"C {kind}/{n} {resOr r}"
+  | .pausePatch n _ r => s!"P {kind}/{n} {resOr r}"
+  | .delete n r => s!"X {kind}/{n} {resOr r}"
+  | .finalizerPatch n add r => s!"F {n} {if add then "+" else "-"} {resOr r}"
+  | .statusUpdate n r conds co => s!"S {n} {resOr r} rev=0 conds=[{condsStr conds}] co=[{crefsStr co}]"
+
+def ophaseStr (p : OPhase) : String :=
+  s!"{p.name}\{g={p.gen},d={b01 p.deleting},f={if p.finCached then "c" else ""},paused={b01 p.paused},rev={p.revision} conds=[{condsStr p.conds}] co=[{crefsStr p.controllerOf}]}"
 
 def resStr : Res → String
   | .ok => "ok" | .requeue => "requeue" | .err => "err"
@@ -126,10 +136,15 @@ def osetStr (o : OSet) : String :=
 def stepModel (scn : Scn) (cfg : Cfg) (st : JStep) (s : Sys) : Sys × String :=
   match st.op with
   | "reconcile" =>
-    let s0 : Sys := { s with w := { s.w with writes := 0, env := (st.env.getD []).map toEnv, events := [] },
+    let s0 : Sys := { s with w := { s.w with writes := 0, env := (st.env.getD []).map toEnv, events := [], phaseEvents := [] },
                              setEvents := [], setWrites := 0, setEnv := (st.setEnv.getD []).map toSetEnv }
-    let (s1, r) := reconcile cfg noRemotes st.set s0
-    (s1, s!"R {resStr r} | {";".intercalate (s1.w.events.map eventStr)} | {";".intercalate (s1.setEvents.map setEventStr)}")
+    let (s1, r) := reconcile cfg Pko.Model.Remote.remotes st.set s0
+    (s1, stepOut r s1)
+  | "phase" =>
+    let s0 : Sys := { s with w := { s.w with writes := 0, env := (st.env.getD []).map toEnv, events := [], phaseEvents := [] },
+                             setEvents := [], setWrites := 0, setEnv := [] }
+    let (s1, r) := Pko.Model.Remote.reconcilePhaseCtl (phaseCfgOf scn) (setKindOf scn) (nsOf scn) st.set s0
+    (s1, stepOut r s1)
   | "env" =>
     ({ s with w := { s.w with store := (st.env.getD []).foldl (fun acc e => acc.env (toEnv e).2) s.w.store } }, "-")
   | "lifecycle" => (s.applySetEnv (.lifecycle st.set (toLifecycle st.value)), "-")
@@ -139,7 +154,9 @@ def stepModel (scn : Scn) (cfg : Cfg) (st : JStep) (s : Sys) : Sys × String :=
   | "restart" => (s, "-")
   | _ => (s, "BAD-STEP")
 where
-  _unused := scn
+  stepOut (r : Res) (s1 : Sys) : String :=
+    let pk := Pko.Model.Remote.phaseKindOf (setKindOf scn)
+    s!"R {resStr r} | {";".intercalate (s1.w.events.map eventStr)} | {";".intercalate (s1.setEvents.map setEventStr)} | {";".intercalate (s1.w.phaseEvents.map (phaseEventStr pk))}"
 
 def setNames (s : Scn) : List String := (s.sets.getD []).map (·.name)
 
@@ -159,7 +176,9 @@ def runModel (s : Scn) : List String × Sys :=
 
 def model (s : Scn) : String :=
   let (outs, sys) := runModel s
-  let sets := sortStrings ((setNames s).filterMap fun n => (sys.sets n).map osetStr)
+  let phaseNames := (s.sets.getD []).flatMap fun js => (js.phases.getD []).map fun ph => js.name ++ "-" ++ ph.name
+  let sets := sortStrings (((setNames s).filterMap fun n => (sys.sets n).map osetStr) ++
+    (phaseNames.filterMap fun n => (sys.w.phases n).map ophaseStr))
   let objs := sortStrings ((managedKeys s (cfgOf s)).filterMap fun k => (sys.w.store.get k).map (objStr k))
   " ## ".intercalate (outs ++ [";".intercalate sets, ";".intercalate objs])
 
